@@ -33,8 +33,15 @@ theorem tagStates_gen : TagStatesOk Gen.Syntax.table = true := by decide +kernel
 
 theorem tagStatesWitness_gen : tagStatesWitness Gen.Syntax.table = [] := by decide +kernel
 
-/-- as the code stands, the `>` arm of before_attribute_value_state goes to the data state (finding F1 of C03) -/
-theorem trans36_gen : trans36 Gen.Syntax.table = .goto 2 := by decide +kernel
+/-- the `>` arm of before_attribute_value_state ends in `--> dyn next_text_parsing_state`, or (finding F1 of
+C03, before its repair) in `--> data_state`; the proofs accept both -/
+theorem trans36_cases (t : Table) : trans36 t = .gotoDyn ∨ trans36 t = .goto t.dataState := by
+  unfold trans36
+  split
+  · split
+    · exact Or.inl rfl
+    · exact Or.inr rfl
+  · exact Or.inr rfl
 
 variable {κ : Type}
 
@@ -99,6 +106,52 @@ theorem C16_outline_unfinished (env : Env κ) (hok : TagStatesOk env.tbl = true)
   let F : Frame κ := ⟨il, ca, lsh, ltt, i, cnt, fd, x⟩
   obtain ⟨k, cE, lE, e1, e2, _, _, _, e6, hrun⟩ := run_startTag hok F i rfl en cq hq tps ct cattr .unfinished hspec
   exact ⟨k, cE, lE, e1, e2, e6, hrun⟩
+
+/-- **C16_outline_break.** The first half of "a tag across a chunk boundary": when the slice is not the last
+one and ends inside the tag, the run ends with `endOfInput i` — exactly the bytes before `<` are consumed, the tag is kept
+for the next slice (which therefore starts at `<`) —, sink and simulator untouched, `lexeme_start = 0`, the cursor at
+`|inp| − i`, and the token-part start, the tag token's name / attribute outlines and the open attribute re-based
+by `i` (`Align`). -/
+theorem C16_outline_break (env : Env κ) (hok : TagStatesOk env.tbl = true) (inp : Bytes) (i : Nat) (m : M κ)
+    (hm : AtTagStart env.tbl m i) (hlast : m.c.isLast = false) (hspec : startTagAt inp i = some .unfinished) :
+    ∃ (k : Nat) (cE : Common) (lE : LexRegs), lE.lexemeStart = i ∧ cE.isLast = false ∧
+      ∀ fuel, runLoop env inp (k + 1 + fuel) m =
+        (⟨{ cE with nextPos := inp.length - i },
+          .lexer { lE with tokenPartStart := alignNat lE.tokenPartStart i,
+                           curTag := lE.curTag.map (·.align i),
+                           curNonTag := lE.curNonTag.map (·.align i),
+                           curAttr := lE.curAttr.map (·.align i),
+                           lexemeStart := 0 }, m.x⟩,
+         .endOfInput i) := by
+  obtain ⟨k, cE, lE, e1, e2, e3, hrun⟩ := C16_outline_unfinished env hok inp i m hm hspec
+  have hil : cE.isLast = false := by rw [e2, hlast]
+  have hi : i + 2 ≤ inp.length := by
+    unfold startTagAt at hspec
+    split at hspec
+    · rename_i hd
+      have := congrArg List.length hd
+      simp only [List.length_drop, List.length_cons] at this
+      omega
+    · simp at hspec
+  refine ⟨k, cE, lE, e3, hil, fun fuel => ?_⟩
+  rw [hrun fuel, eofStep_break env inp cE lE m.x hil (by omega), e3, e1]
+  simp only [cont]
+  congr 3
+
+/-- The second half, stated, not proved: the run on the next slice `inp.drop i ++ more` from the machine of
+`C16_outline_break` reaches `emit_tag` with the outline `Spec.Attrs` reads from `inp ++ more` at `i`, re-based by `i`
+(so that `base + outline` is the same document range). Missing: the composition of `Spec.Attrs.attrs` over `inp ++ more`
+and its translation by `i`; `run_attrs` already covers an arbitrary mid-tag machine related to an arbitrary spec state. -/
+def C16_outline_across_break_statement (κ : Type) : Prop :=
+  ∀ (env : Env κ), TagStatesOk env.tbl = true → ∀ (inp more : Bytes) (i : Nat) (m : M κ), AtTagStart env.tbl m i →
+    m.c.isLast = false → startTagAt inp i = some .unfinished →
+    ∀ t, startTagAt (inp ++ more) i = some (.finished t) →
+    ∃ k1 m1, (∀ fuel, runLoop env inp (k1 + 1 + fuel) m = (m1, .endOfInput i)) ∧
+      ∀ il2 : Bool, ∃ (k : Nat) (cJ : Common) (lJ : LexRegs) (tr : Model.Trans), cJ.nextPos = t.stop - i ∧ lJ.lexemeStart = 0 ∧
+        lJ.curTag = some (.startTag (t.name.align i) (NameHash.ofBytes (slice (inp ++ more) t.name.start t.name.end)) .html
+          (t.attrs.map (·.align i)) t.selfClosing) ∧
+        ∀ fuel, runLoop env (inp.drop i ++ more) (k + 1 + fuel) { m1 with c := { m1.c with isLast := il2 } } =
+          cont env (inp.drop i ++ more) fuel (finish env tr (lexEmitTag env (inp.drop i ++ more) cJ lJ m.x))
 
 /-- the end-of-input step never calls `handle_tag`: whatever the sink, its state afterwards is the old
 one, or the old one after `handle_non_tag_content` of the raw bytes and then possibly of the EOF lexeme -/
@@ -216,14 +269,7 @@ theorem C16_outline_recorded (tbl : Table) (cfg : TagCfg) (hok : TagStatesOk tbl
     have htr' : tr = .gotoDyn ∨ tr = .goto tbl.dataState := by
       rcases htr with h | h
       · exact Or.inl h
-      · rw [h]
-        show trans36 tbl = .gotoDyn ∨ trans36 tbl = .goto tbl.dataState
-        unfold trans36
-        split
-        · split
-          · exact Or.inl rfl
-          · exact Or.inr rfl
-        · exact Or.inr rfl
+      · rw [h]; exact trans36_cases tbl
     rcases htr' with rfl | rfl
     · refine ⟨(applyTrans ⟨tbl, cfg, recOps⟩ .gotoDyn rm).1, fun fuel => ?_, ?_⟩
       · rw [hrun fuel, heq]; rfl
@@ -282,8 +328,11 @@ theorem C16_outline_gen (cfg : TagCfg) (ops : SinkOps κ) (inp : Bytes) (i : Nat
     ∃ k cJ lJ tr, k < 2 * (t.stop - i) ∧ EmitRegs inp m i t cJ lJ ∧ (tr = .gotoDyn ∨ tr = .goto 2) ∧
       ∀ fuel, runLoop ⟨Gen.Syntax.table, cfg, ops⟩ inp (k + 1 + fuel) m =
         cont ⟨Gen.Syntax.table, cfg, ops⟩ inp fuel (finish ⟨Gen.Syntax.table, cfg, ops⟩ tr (lexEmitTag ⟨Gen.Syntax.table, cfg, ops⟩ inp cJ lJ m.x)) := by
-  have := C16_outline ⟨Gen.Syntax.table, cfg, ops⟩ tagStates_gen inp i m hm t hspec
-  simpa only [trans36_gen] using this
+  obtain ⟨k, cJ, lJ, tr, h1, h2, h3, h4⟩ := C16_outline ⟨Gen.Syntax.table, cfg, ops⟩ tagStates_gen inp i m hm t hspec
+  refine ⟨k, cJ, lJ, tr, h1, h2, ?_, h4⟩
+  rcases h3 with h | h
+  · exact Or.inl h
+  · rw [h]; exact trans36_cases Gen.Syntax.table
 
 /-! ### Non-vacuity: a concrete run on the generated table -/
 
